@@ -49,6 +49,26 @@ theorem Mem.storeLE_comm (m : Mem) (a1 v1 n1 a2 v2 n2 : Nat) (hd : a1 + n1 ≤ a
   by_cases h1 : a1 ≤ x ∧ x < a1 + n1 <;> by_cases h2 : a2 ≤ x ∧ x < a2 + n2 <;> simp [h1, h2]
   omega
 
+theorem mem_read_lt (m : Mem) (a : Nat) : m.read a < 256 := by
+  unfold Mem.read
+  split
+  · exact Nat.mod_lt _ (by decide)
+  · decide
+
+theorem mem_loadLE_lt (m : Mem) : ∀ (n a : Nat), m.loadLE a n < 256 ^ n := by
+  intro n
+  induction n with
+  | zero => intro a; simp [Mem.loadLE]
+  | succ n ih =>
+    intro a
+    have h1 := mem_read_lt m a
+    have h2 := ih (a + 1)
+    simp only [Mem.loadLE, Nat.pow_succ]
+    have : 256 * m.loadLE (a + 1) n ≤ 256 * (256 ^ n - 1) := Nat.mul_le_mul_left _ (by omega)
+    have hp : 0 < 256 ^ n := Nat.pow_pos (by decide)
+    rw [Nat.mul_sub, Nat.mul_one] at this
+    omega
+
 theorem MemEq.loadLE {a b : Mem} (h : MemEq a b) (addr : Nat) : ∀ n, a.loadLE addr n = b.loadLE addr n := by
   intro n
   induction n generalizing addr with
